@@ -93,7 +93,7 @@ PROPS = {
     },
     "C16": {
         "claimed": True,
-        "model_modules": ["TemplVerif.Model.Quote"],
+        "model_modules": ["TemplVerif.Model.Quote", "TemplVerif.Model.Watch"],
         "proof_modules": ["TemplVerif.Proofs.Quote"],
         "level_text": "Lean 4 theorems: for every byte string and every behaviour of unicode.IsPrint that does not call LF printable, "
                       "strconv.Unquote inverts the generator's strconv.Quote escaping and the escaped literal contains no raw line break "
@@ -101,23 +101,37 @@ PROPS = {
                       "normally generated code carries at index i (C16_devmode); and whenever the model of HasChanged reports no change, a "
                       "compiled template - a function of its code-without-literals and of the literals read at run time - reading the updated "
                       "text file is the newly generated program (C16_norecompile). What HasChanged compares and where the code digest is "
-                      "suspended are regenerated from generator.go / rangewriter.go and pinned (C16_haschanged_pinned). Compared on every run "
+                      "suspended are regenerated from generator.go / rangewriter.go and pinned (C16_haschanged_pinned). Between an edit and the "
+                      "running program: after ANY sequence of edits handled by one handler the text file on disk is the one for the last "
+                      "version, because the digest guarding the write is taken of the written text (C16_textfile_current[_joined], induction over "
+                      "the edit list; C16_textguard_pinned T1; C16_textfile_concat_counterexample shows a separator-less digest fails); and the "
+                      "running program's cache, which remembers the FILE's modification time, returns the current lines on every look 100 ms or "
+                      "more after the last rewrite and keeps its invariant under loads, looks and rewrites (C16_watch_fresh, C16_watch_inv; "
+                      "C16_watch_pinned T1; C16_watch_loadtime_counterexample shows remembering the load time fails). Compared on every run "
                       "with the real strconv.Quote/Unquote (IsPrint supplied per string), the real literals and text-file round trip of repo and "
                       "grammar-generated templates, 20 fixture components rendered normally and in a TEMPL_DEV_MODE child process fed by the "
                       "real FSEventHandler, and thousands of edit pairs through the real HasChanged with the Lean predicate 'no change => code "
                       "differs only in literals'.",
         "level_note": "Trusted: SHA-256 collision resistance (digest equality stands for equality of the code without literals); the Go "
-                      "compiler reads an interpreted string literal as strconv.Unquote does; unicode.IsPrint is a parameter; the text-file cache "
-                      "refresh (100 ms / mtime) in runtime/watchmode.go is exercised only through the child-process run.",
+                      "compiler reads an interpreted string literal as strconv.Unquote does; unicode.IsPrint is a parameter; the file system gives a "
+                      "rewrite a modification time later than the one the program saw (two rewrites within one clock tick of the file system "
+                      "are outside the cache theorem, and within 100 ms of the remembered time the program does not look at all: the property "
+                      "is about what is shown once that interval has passed); the T1 facts are expression texts of watchmode.go / eventhandler.go.",
         "rule": "Quote/Unquote: all strings to length 3 (4) over 25 symbols (quotes, backslash, controls, NBSP, U+2028, BOM, invalid bytes, "
                 "astral) + random runes; literals of 63 repo templates, seeds with CRLF and 200 (4000) generated templates; 20 fixtures in "
                 "dev mode; edit pairs: every two-slot template over 31 node forms grouped by (literal count, expression list), all pairs within "
-                "groups + random cross pairs. Non-trivial = escaping changed the string / HasChanged said no recompilation.",
+                "groups + random cross pairs; 6 fixed + 120 (2500) random edit sessions of 2-4 versions through the real FSEventHandler "
+                "(text file on disk vs the last version's literals; the handler's own recompilation verdict per step); one long-running "
+                "development-mode child, 6 (25) rounds of load / rewrite straight after the load / look after 150 ms / look again. "
+                "Non-trivial = escaping changed the string / HasChanged said no recompilation.",
         "exhaustive": True,
-        "proved": ["C16_roundtrip", "C16_devmode", "C16_norecompile", "C16_haschanged_pinned (T1)"],
+        "proved": ["C16_roundtrip", "C16_devmode", "C16_norecompile", "C16_haschanged_pinned (T1)", "C16_textfile_current", "C16_textfile_current_joined",
+                   "C16_textguard_pinned (T1)", "C16_watch_fresh", "C16_watch_inv", "C16_watch_pinned (T1)"],
         "monitored": ["model = real strconv.Quote / Unquote", "real literals survive the text file", "dev-mode render = normal render (child process)",
-                      "HasChanged false => generated code equal outside literals"],
-        "partial": [],
+                      "HasChanged false => generated code equal outside literals (also with the real handler's verdict per edit)",
+                      "text file on disk after an edit session = text file of the last version (real FSEventHandler)",
+                      "a long-running development-mode process shows every rewrite of its text file once the throttle interval has passed"],
+        "partial": ["file-system clock granularity: two rewrites within one tick, and looks within 100 ms of the remembered time, are outside the cache theorem"],
         "trusted_base": ["SHA-256", "Go compiler's string literal semantics = strconv.Unquote", "unicode.IsPrint as a parameter"],
         "assumptions": STD_ASSUME,
     },
@@ -259,7 +273,7 @@ PROPS = {
         "exhaustive": False,
         "proved": ["C07_add", "C07_same_byte", "C07_no_clobber"],
         "monitored": ["model = real SourceMap.Add tables", "model advance = real RangeWriter ranges", "exprMapped for every expression of every explored template"],
-        "partial": ["cover / symbol ranges rest on the explored templates until the generator model lands"],
+        "partial": ["cover / symbol ranges rest on the explored templates (there is no byte-exact model of the generator's text)"],
         "trusted_base": ["Go map assignment = later entry wins", "utf8 range iteration modelled by Utf8.decodeRune"],
         "assumptions": STD_ASSUME,
     },
@@ -494,23 +508,32 @@ PROPS = {
     },
     "C01": {
         "claimed": True,
-        "model_modules": ["TemplVerif.Model.Html", "TemplVerif.Model.Attrs", "TemplVerif.Model.Sinks", "TemplVerif.Spec.HtmlTok"],
-        "proof_modules": ["TemplVerif.Proofs.Html"],
+        "model_modules": ["TemplVerif.Model.Html", "TemplVerif.Model.Attrs", "TemplVerif.Model.Sinks", "TemplVerif.Spec.HtmlTok",
+                          "TemplVerif.Model.Expect", "TemplVerif.Model.Denote"],
+        "proof_modules": ["TemplVerif.Proofs.Html", "TemplVerif.Proofs.ComposeErr", "TemplVerif.Proofs.Compose"],
         "thorough_shards": 8,
         "level_text": "Lean 4 theorems prove, for EVERY byte string: the escaper's output has no < > \" ' and decodes back to the input "
                       "(C01_escape_noStructural, C01_decode_escape[_append]); in the WHATWG tokenizer specification an escaped string placed "
                       "in the data state or in a double-quoted attribute value is consumed entirely in that state (C01_hole_data, C01_hole_attr, "
                       "C01_text_sink); spread-attribute string forms and the JSON script element's id/type/nonce become exactly the intended "
                       "attributes (C01_spread_value, C01_jsonscript_open); and every dynamic write site the generator can emit (list "
-                      "regenerated from generator.go each run) goes through templ.EscapeString (C01_sinks_wired, decide). The models are "
+                      "regenerated from generator.go each run) goes through templ.EscapeString (C01_sinks_wired, decide). COMPOSITION "
+                      "(C01_compose, C01_compose_hoistAll): for every template body of the markup fragment (elements other than raw-text ones; "
+                      "constant, boolean, expression, class and conditional attributes; text, string expressions, if / for / switch, Go code and "
+                      "comments; arbitrary nesting) and every environment whose rendering does not fail, tokenizing the bytes the template "
+                      "denotes (Denote, the C02 semantics the generated code is compared with) gives exactly the author's token stream "
+                      "(Expect.tokens: the template's tags and attributes in order, every string verbatim inside its text run or as its "
+                      "attribute's whole value) - by mutual structural induction over the tree, unbounded. The models are "
                       "compared with the real EscapeString / RenderAttributes / JSONScript on every run; 24 sink kinds are rendered through "
                       "the real generator+runtime with adversarial strings and the Lean tokenizer predicate (same token stream as the "
                       "author's markup with the value substituted) is evaluated on the real output; the tokenizer spec is cross-checked "
                       "against golang.org/x/net/html on every document.",
         "level_note": "Trusted: Lean kernel; the hand-written tokenizer specification (cross-checked against x/net/html; compared modulo "
                       "CR/NUL input normalisation); html.EscapeString modelled as five byte replacements; decodeRefs covers the five references "
-                      "the escaper emits; composition over all templates (that every sink sits in data / double-quoted value state) is "
-                      "established per fixture template by the correspondence run and in general by C02's generator model, not by a theorem here; "
+                      "the escaper emits (so the composition theorem's static-text hypothesis textOK - no text stopping inside `&[A-Za-z0-9#]*` - is "
+                      "stated for any reference table, and the compose check only runs the Lean tokenizer); the composition theorem is about "
+                      "Denote (tied to the compiled code by C02's run and by the compose phase here), and outside the markup fragment (spread "
+                      "attributes, script handlers, raw-text elements, component calls, comments) the per-sink theorems apply; "
                       "attribute NAMES from spread maps and text in RAWTEXT elements other than script/style are outside the statement.",
         "rule": "escaper: exhaustive over a 20-symbol alphabet (& < > \" ' / = space NUL CR LF TAB a e-acute 0xFF 0xC3 U+2028 % ; #) to "
                 "length 3 (quick) / 5 (thorough); 24 sink kinds (text, attribute, conditional attribute, spread string/*string/KeyValue, class, "
@@ -519,10 +542,15 @@ PROPS = {
                 "Distinct = distinct (op, inputs); non-trivial = value contains a metacharacter, %, NUL or non-ASCII byte.",
         "exhaustive": True,
         "proved": ["escape: no structural bytes, decode . escape = id (all byte strings)", "tokenizer hole lemmas for data and double-quoted attribute value",
-                   "spread attribute value / JSON script open tag token shape", "all generator sinks wired through EscapeString (T1, decide)"],
+                   "spread attribute value / JSON script open tag token shape", "all generator sinks wired through EscapeString (T1, decide)",
+                   "composition: tokenize(Denote body env) = Expect.tokens body env for every tree of the markup fragment and every environment (C01_compose)",
+                   "static text not stopping inside a character reference decodes independently of what follows (C01_static_text_closed)"],
         "monitored": ["model = real EscapeString / RenderAttributes / JSONScript header", "token-stream predicate on real rendered output of 24 sink kinds",
-                      "Lean tokenizer = x/net/html tokenizer on every rendered document"],
-        "partial": ["general composition over arbitrary templates relies on C02's generator model"],
+                      "Lean tokenizer = x/net/html tokenizer on every rendered document",
+                      "composition statement evaluated on the real bytes of compiled generated templates (tokenize(out) = Expect.tokens; Denote.out = out)",
+                      "static `&` directly before a string expression (known finding text-after-amp)"],
+        "partial": ["composition outside the markup fragment (spread attributes, script handlers, raw-text elements, component calls, HTML comments): per-sink theorems and fixtures only",
+                    "composition is proved about Denote; that the compiled code writes Denote's bytes is C02's correspondence, not a theorem"],
         "trusted_base": ["html.EscapeString = byte-level replacer of & < > \" '", "WHATWG tokenizer fragment (Spec/HtmlTok.lean)"],
         "assumptions": STD_ASSUME,
     },
